@@ -780,3 +780,211 @@ func c18NewlineOnly(c *Ctx, r *Result, fn *ssa.Function, adv *ssa.BinOp, site, p
 		Msg: fmt.Sprintf("%s: the line counter is advanced on a path on which the scanned rune is %s, not a newline (the comparisons on the way say so): every later token is reported one line too far down", key, bad)})
 	return true
 }
+
+// ---- R09e: no stop request is pending where a worker is started --------------------------------
+//
+// "Changing the worker count converges to the requested number": a worker started while the counter of
+// workers that should stop is non-zero is stopped again by a request that belonged to an earlier
+// shrink. At every `go` statement of package pool that starts a worker, ThreadPool.workerKill is known
+// to be zero: a forward must-dataflow over the CFG (zero after a store of the constant 0 or on the
+// equal edge of a comparison with 0; unknown after any other store, after a call that can write the
+// field, and after an unlock of the lock guarding it — another thread may set it). A function that starts a worker without
+// establishing it hands the obligation to each of its call sites (two levels).
+func c09StartWithoutPendingStop(c *Ctx, r *Result) {
+	fKill := c.Field("engine/pool", "ThreadPool", "workerKill")
+	if fKill == nil {
+		r.Undecide("R09e: field ThreadPool.workerKill not found")
+		return
+	}
+	// functions that may write the field (transitively over static callees inside the module)
+	writes := map[*ssa.Function]bool{}
+	for _, fn := range c.ModFuncs() {
+		allInstrs(fn, func(in ssa.Instruction) {
+			if st, ok := in.(*ssa.Store); ok && fieldVar(st.Addr) == fKill {
+				writes[fn] = true
+			}
+		})
+	}
+	for changed := true; changed; {
+		changed = false
+		for _, fn := range c.ModFuncs() {
+			if writes[fn] {
+				continue
+			}
+			allInstrs(fn, func(in ssa.Instruction) {
+				if _, isGo := in.(*ssa.Go); isGo {
+					return // a started thread writes the field under the lock its starter holds, i.e. later
+				}
+				if ci, ok := in.(ssa.CallInstruction); ok && !writes[fn] {
+					for _, callee := range c.Callees(ci) {
+						if writes[callee] {
+							writes[fn] = true
+							changed = true
+						}
+					}
+				}
+			})
+		}
+	}
+	isKillLoad := func(v ssa.Value) bool {
+		u, ok := stripNumConv(v).(*ssa.UnOp)
+		return ok && u.Op == token.MUL && fieldVar(u.X) == fKill
+	}
+	// zeroBefore: the field is known to be zero just before `at` in fn
+	zeroBefore := func(fn *ssa.Function, at ssa.Instruction) bool {
+		in := make([]int8, len(fn.Blocks)) // 0 = unvisited, 1 = zero, 2 = unknown
+		in[0] = 2
+		res := false
+		seenAt := false
+		work := []*ssa.BasicBlock{fn.Blocks[0]}
+		for len(work) > 0 {
+			b := work[len(work)-1]
+			work = work[:len(work)-1]
+			zero := in[b.Index] == 1
+			for _, x := range b.Instrs {
+				if x == at {
+					if !seenAt {
+						res, seenAt = zero, true
+					} else {
+						res = res && zero
+					}
+				}
+				switch y := x.(type) {
+				case *ssa.Store:
+					if fieldVar(y.Addr) == fKill {
+						k, ok := constInt(y.Val)
+						zero = ok && k == 0
+					}
+				case ssa.CallInstruction:
+					if _, isDefer := x.(*ssa.Defer); isDefer {
+						continue
+					}
+					if op, ok := lockOpOf(x); ok {
+						if (op.Kind == "Unlock" || op.Kind == "RUnlock") && op.Class == "pool.ThreadPool.workerMapLock" {
+							zero = false // the lock that guards the field (R09b-guard) is given up: another thread may set it
+						}
+						continue
+					}
+					if _, isGo := x.(*ssa.Go); isGo {
+						continue // the started thread needs the lock the starter holds
+					}
+					for _, callee := range c.Callees(y) {
+						if writes[callee] {
+							zero = false
+						}
+					}
+				}
+			}
+			for i, s := range b.Succs {
+				out := zero
+				if t, ok := b.Instrs[len(b.Instrs)-1].(*ssa.If); ok {
+					if bo, ok := t.Cond.(*ssa.BinOp); ok && (bo.Op == token.EQL || bo.Op == token.NEQ) {
+						var other ssa.Value
+						if isKillLoad(bo.X) {
+							other = bo.Y
+						} else if isKillLoad(bo.Y) {
+							other = bo.X
+						}
+						if k, isC := constInt(other); other != nil && isC && k == 0 && (bo.Op == token.EQL) == (i == 0) {
+							// the load is of this block or a dominating one with no store between: require the same block
+							if ld, ok := stripNumConv(pick(isKillLoad(bo.X), bo.X, bo.Y)).(*ssa.UnOp); ok && ld.Block() == b && noKillStoreAfter(b, ld, fKill) {
+								out = true
+							}
+						}
+					}
+				}
+				var nv int8 = 2
+				if out {
+					nv = 1
+				}
+				old := in[s.Index]
+				if old == 0 || (old == 1 && nv == 2) {
+					in[s.Index] = nv
+					work = append(work, s)
+				}
+			}
+		}
+		return seenAt && res
+	}
+	n := 0
+	for _, fn := range c.ModFuncs() {
+		if c.PkgOf(fn) != "engine/pool" {
+			continue
+		}
+		key := c.FuncKey(fn)
+		ord := newOrdinals()
+		allInstrs(fn, func(in ssa.Instruction) {
+			g, ok := in.(*ssa.Go)
+			if !ok {
+				return
+			}
+			n++
+			site := ord.key(key, "start", callName(g))
+			pos := c.Pos(c.InstrPos(in))
+			// the obligation at this statement, or at every call site of the function (two levels up)
+			var holds func(fn *ssa.Function, at ssa.Instruction, depth int) (bool, string)
+			holds = func(fn *ssa.Function, at ssa.Instruction, depth int) (bool, string) {
+				if zeroBefore(fn, at) {
+					return true, ""
+				}
+				if depth == 0 {
+					return false, c.FuncKey(fn)
+				}
+				node := c.CHA().Nodes[fn]
+				if node == nil || len(node.In) == 0 {
+					return false, c.FuncKey(fn)
+				}
+				sites := 0
+				for _, e := range node.In {
+
+					if e.Caller.Func != nil && e.Caller.Func.Synthetic != "" {
+						continue // a compiler-generated wrapper: its own callers are edges of the wrapped function
+					}
+					if e.Site == nil || e.Caller.Func == nil || !c.inModule(e.Caller.Func) {
+						return false, c.FuncKey(fn)
+					}
+					sites++
+					if ok, where := holds(e.Caller.Func, e.Site, depth-1); !ok {
+						return false, where
+					}
+				}
+				return sites > 0, c.FuncKey(fn)
+			}
+			if ok, _ := holds(fn, in, 2); ok {
+				r.Instance("R09e", site, pos, "ok", "the counter of workers to stop is zero on every path to the start of the worker", true)
+			} else {
+				r.Instance("R09e", site, pos, "finding", "a stop request can be pending (not established here nor at every call site of the function)", true)
+				r.Report(Finding{Rule: "R09e", Site: site, Pos: pos,
+					Msg: fmt.Sprintf("%s: a worker is started while ThreadPool.workerKill is not known to be zero (neither on every path to the statement nor at every call site of the function): a stop request left from an earlier shrink is consumed afterwards and the pool ends up with fewer workers than SetWorkerCount was asked for", key)})
+			}
+		})
+	}
+	r.Floor("R09e", n, 1)
+}
+
+func pick(first bool, a, b ssa.Value) ssa.Value {
+	if first {
+		return a
+	}
+	return b
+}
+
+// noKillStoreAfter: no store to the field between the load and the end of its block.
+func noKillStoreAfter(b *ssa.BasicBlock, ld ssa.Instruction, f *types.Var) bool {
+	after := false
+	for _, x := range b.Instrs {
+		if x == ld {
+			after = true
+			continue
+		}
+		if after {
+			if st, ok := x.(*ssa.Store); ok && fieldVar(st.Addr) == f {
+				return false
+			}
+			if _, ok := x.(ssa.CallInstruction); ok {
+				return false
+			}
+		}
+	}
+	return after
+}
